@@ -7,6 +7,7 @@ package hookrt
 
 import (
 	"bytes"
+	"fmt"
 	"math/rand"
 	"runtime"
 	"strconv"
@@ -53,6 +54,7 @@ type Runtime struct {
 	passed  map[string][][]string
 	cond    *sync.Cond
 	enabled bool
+	releaseAll bool
 }
 
 var cur *Runtime
@@ -105,6 +107,28 @@ func (r *Runtime) Stamp(point string, keys ...string) int {
 	return seq
 }
 
+// Len returns the number of events logged so far.
+func (r *Runtime) Len() int { r.mu.Lock(); defer r.mu.Unlock(); return len(r.log) }
+
+// ReleaseAll makes every parked goroutine continue (end of a scenario).
+func (r *Runtime) ReleaseAll() {
+	r.mu.Lock()
+	r.releaseAll = true
+	r.cond.Broadcast()
+	r.mu.Unlock()
+}
+
+// RuleInfo summarises what the park rules did.
+func (r *Runtime) RuleInfo() string {
+	r.mu.Lock()
+	defer r.mu.Unlock()
+	s := ""
+	for _, rule := range r.rules {
+		s += fmt.Sprintf("%s->%s parked=%d timedout=%d; ", rule.Point, rule.Until, rule.Parked, rule.TimedOut)
+	}
+	return s
+}
+
 // Log returns a copy of the log.
 func (r *Runtime) Log() []Event {
 	r.mu.Lock()
@@ -122,6 +146,8 @@ func (r *Runtime) Reset() {
 	r.passed = map[string][][]string{}
 	r.tids = map[int64]int{}
 	r.rngs = map[int64]*rand.Rand{}
+	r.releaseAll = false
+	r.perturb = map[string]float64{}
 	r.mu.Unlock()
 }
 
@@ -185,7 +211,7 @@ func (r *Runtime) at(point string, keys []string) {
 		rule.Parked++
 		deadline := time.Now().Add(rule.Timeout)
 		timer := time.AfterFunc(rule.Timeout, func() { r.mu.Lock(); r.cond.Broadcast(); r.mu.Unlock() })
-		for !r.hasPassed(rule.Until, rule.UntilKeys) {
+		for !r.hasPassed(rule.Until, rule.UntilKeys) && !r.releaseAll {
 			if time.Now().After(deadline) {
 				rule.TimedOut++
 				break
